@@ -6,6 +6,7 @@ import SugarModel.Model.Generic
 import SugarModel.Model.ListCmd
 import SugarModel.Model.HashCmd
 import SugarModel.Model.SetCmd
+import SugarModel.Model.ConnCmd
 namespace Sugar
 
 abbrev Handler := Ctx → List Bytes → Prog Res
@@ -36,7 +37,8 @@ def handlerTable : List (Bytes × Handler) := [
   (b "sinter", handleSInter 0), (b "sintercard", handleSInter 2), (b "sinterstore", handleSInter 1),
   (b "sismember", handleSIsMember), (b "smembers", handleSMembers), (b "smismember", handleSMIsMember),
   (b "smove", handleSMove), (b "spop", handleSPop), (b "srandmember", handleSRandMember), (b "srem", handleSRem),
-  (b "sunion", handleSUnion false), (b "sunionstore", handleSUnion true)]
+  (b "sunion", handleSUnion false), (b "sunionstore", handleSUnion true),
+  (b "select", handleSelect), (b "swapdb", handleSwapDB), (b "ping", handlePing), (b "echo", handleEcho)]
 
 def lookupHandler (n : Bytes) : List (Bytes × Handler) → Option Handler
   | [] => none
